@@ -50,7 +50,7 @@ type state struct {
 	reported map[string]bool // signatures already sent as violation records by this child
 	m        *Model          // current case
 	caseID   string
-	exec     string          // current execution label
+	exec     string // current execution label
 	// per-case
 	sawPanic, sawInconsistent bool
 	// per-execution: does the SchemaConfig hold an untyped nil entry
@@ -328,8 +328,8 @@ func (st *state) droppedEntries(s graphql.Schema) {
 				ok = false
 			}
 		}()
-		if !ok {
-			continue
+		if !ok || s.Type(t.Name).Error() != nil {
+			continue // a broken type's accessors return partial maps
 		}
 		for _, f := range t.Fields {
 			if have[f.Name] {
